@@ -31,7 +31,7 @@ TDispose == /\ Step("Dispose") /\ Intact /\ E.m \in live   \* released exactly o
 \* a response received by a client during the concurrent run of the full stack:
 \* its ID and question are the request's own and it equals the response the same
 \* request gets when it is processed alone
-TResp == Step("Resp") /\ E.idok /\ E.qok /\ E.same /\ UNCHANGED <<owns, live>>
+TResp == Step("Resp") /\ E.idok /\ E.qok /\ E.same /\ E.shapeok /\ UNCHANGED <<owns, live>>
 TraceInit == l = 1 /\ owns = <<>> /\ live = {}
 TraceNext == TReset \/ TNew \/ TClone \/ TRewrite \/ TDispose \/ TResp
 TraceSpec == TraceInit /\ [][TraceNext]_<<l, owns, live>>
